@@ -82,6 +82,22 @@ fn ival<T: Into<i64>>(r: Result<T, String>) -> Value {
     }
 }
 
+/// name / class / self-consistency of the rank returned by hand_rank_validated()
+fn validated_fields(h: &Hand, m: &mut Map<String, Value>) {
+    match guarded(|| hand_rank_validated(h)) {
+        Ok(hr) => {
+            m.insert("name_validated".into(), json!(format!("{:?}", hr.name)));
+            m.insert("class_validated".into(), json!(format!("{:?}", hr.class)));
+            m.insert("consistent_validated".into(), json!(hr.is_a_valid_hand_rank()));
+        }
+        Err(_) => {
+            m.insert("name_validated".into(), json!("panic"));
+            m.insert("class_validated".into(), json!("panic"));
+            m.insert("consistent_validated".into(), json!(false));
+        }
+    }
+}
+
 /// All the five-slot ranking observables of one array of five words.
 pub fn observe_rank5(w: &[u32]) -> Map<String, Value> {
     let arr = [w[0], w[1], w[2], w[3], w[4]];
@@ -116,6 +132,7 @@ pub fn observe_rank5(w: &[u32]) -> Map<String, Value> {
     m.insert("v_validated".into(), ival(guarded(|| rank_value_validated(&h) as i64)));
     m.insert("v_rank_validated".into(), ival(guarded(|| hand_rank_validated(&h).value as i64)));
     m.insert("v_free".into(), ival(guarded(|| ckc_rs::evaluate::five_cards(arr) as i64)));
+    validated_fields(&h, &mut m);
     match guarded(|| (rank_value_and_hand(&h), hand_rank(&h))) {
         Ok((r, hr)) => {
             m.insert("value".into(), json!(r.value));
@@ -141,6 +158,7 @@ pub fn observe_rankn(w: &[u32]) -> Map<String, Value> {
     m.insert("v_validated".into(), ival(guarded(|| rank_value_validated(&h) as i64)));
     m.insert("v_rank_validated".into(), ival(guarded(|| hand_rank_validated(&h).value as i64)));
     m.insert("valid".into(), json!(h.is_valid()));
+    validated_fields(&h, &mut m);
     match guarded(|| (rank_value_and_hand(&h), hand_rank(&h))) {
         Ok((r, hr)) => {
             m.insert("value".into(), json!(r.value));
@@ -169,6 +187,19 @@ pub fn observe_rankn(w: &[u32]) -> Map<String, Value> {
 /// Observe one event.  `args` holds the argument fields; the result is the full event
 /// (arguments and observations), ready to be written as one NDJSON line.
 pub fn observe(args: &Value) -> Value {
+    // a call that unwinds outside the individually guarded sites is still data: the event then
+    // carries "panic" and lacks the fields the specification expects
+    match guarded(|| observe_inner(args)) {
+        Ok(v) => v,
+        Err(msg) => {
+            let mut ev: Map<String, Value> = args.as_object().unwrap().clone();
+            ev.insert("panic".to_string(), json!(msg));
+            Value::Object(ev)
+        }
+    }
+}
+
+fn observe_inner(args: &Value) -> Value {
     let op = args["op"].as_str().expect("event has op");
     let mut ev: Map<String, Value> = args.as_object().unwrap().clone();
     macro_rules! put {
@@ -304,6 +335,7 @@ pub fn observe(args: &Value) -> Value {
             if h.len() >= 5 {
                 put!("v_validated", ival(guarded(|| rank_value_validated(&h) as i64)));
                 put!("v_rank_validated", ival(guarded(|| hand_rank_validated(&h).value as i64)));
+                validated_fields(&h, &mut ev);
                 if h.len() == 5 {
                     let w = h.to_arr();
                     put!("v_free", ival(guarded(|| ckc_rs::evaluate::five_cards([w[0], w[1], w[2], w[3], w[4]]) as i64)));
@@ -505,6 +537,85 @@ pub fn observe(args: &Value) -> Value {
                     put!("kind", json!("panic"));
                     put!("res", json!([]));
                     put!("back", limbs(0));
+                }
+            }
+        }
+        // ---- advisory extensions: behaviour no listed property speaks about ----
+        "adv_serde" => {
+            let w = words_of(&args["words"]);
+            let text = |h: &Hand| -> Option<String> {
+                match h {
+                    Hand::H2(x) => serde_json::to_string(x).ok(),
+                    Hand::H4(x) => serde_json::to_string(x).ok(),
+                    Hand::H5(x) => serde_json::to_string(x).ok(),
+                    Hand::H6(x) => serde_json::to_string(x).ok(),
+                    Hand::H7(x) => serde_json::to_string(x).ok(),
+                    Hand::H3(_) => None,
+                }
+            };
+            let h = Hand::from_words(&w);
+            let t = text(&h).unwrap_or_default();
+            let back: Vec<u32> = serde_json::from_str::<Vec<u32>>(&t).unwrap_or_default();
+            let again = match w.len() {
+                2 => serde_json::from_str::<Two>(&t).map(|x| x.to_arr().to_vec()).unwrap_or_default(),
+                4 => serde_json::from_str::<Four>(&t).map(|x| x.to_arr().to_vec()).unwrap_or_default(),
+                5 => serde_json::from_str::<Five>(&t).map(|x| x.to_arr().to_vec()).unwrap_or_default(),
+                6 => serde_json::from_str::<Six>(&t).map(|x| x.to_arr().to_vec()).unwrap_or_default(),
+                7 => serde_json::from_str::<Seven>(&t).map(|x| x.to_arr().to_vec()).unwrap_or_default(),
+                _ => vec![],
+            };
+            put!("as_numbers", hilo_arr(&back));
+            put!("back", hilo_arr(&again));
+        }
+        "adv_cmp" => {
+            let a = Hand::from_words(&words_of(&args["a"]));
+            let b = Hand::from_words(&words_of(&args["b"]));
+            let c = match (&a, &b) {
+                (Hand::H2(x), Hand::H2(y)) => x.cmp(y),
+                (Hand::H3(x), Hand::H3(y)) => x.cmp(y),
+                (Hand::H4(x), Hand::H4(y)) => x.cmp(y),
+                (Hand::H5(x), Hand::H5(y)) => x.cmp(y),
+                (Hand::H6(x), Hand::H6(y)) => x.cmp(y),
+                (Hand::H7(x), Hand::H7(y)) => x.cmp(y),
+                _ => panic!("harness: adv_cmp needs equal sizes"),
+            };
+            put!("cmp", json!(ord(c)));
+            put!("eq", json!(a.to_arr() == b.to_arr()));
+        }
+        "adv_hr" => {
+            let v = args["v"].as_u64().unwrap() as u16;
+            let hr = HandRank::from(v);
+            let t = serde_json::to_string(&hr).unwrap_or_default();
+            let back: Option<HandRank> = serde_json::from_str(&t).ok();
+            put!("round_trip", json!(back == Some(hr)));
+            put!("display_is_debug", json!(format!("{}", hr) == format!("{:?}", hr)));
+            put!("text", cps(&t));
+        }
+        "adv_consts" => {
+            put!("possible_combinations", json!(Five::POSSIBLE_COMBINATIONS));
+            put!("possible_combinations_free", json!(ckc_rs::evaluate::POSSIBLE_COMBINATIONS));
+            put!("straight_padding", json!(Five::STRAIGHT_PADDING));
+            put!("wheel_or_bits", json!(Five::WHEEL_OR_BITS));
+            put!("no_hand_rank_value", json!(ckc_rs::hand_rank::NO_HAND_RANK_VALUE));
+            put!("deck_size", json!(ckc_rs::deck::DECK_SIZE));
+            put!("rank_flag_filter", hilo(CardNumber::RANK_FLAG_FILTER));
+            put!("suit_filter", hilo(CardNumber::SUIT_FILTER));
+            put!("multiples_filter", hilo(CardNumber::MULTIPLES_FILTER));
+            put!("pair", hilo(CardNumber::PAIR));
+            put!("trips", hilo(CardNumber::TRIPS));
+            put!("quads", hilo(CardNumber::QUADS));
+        }
+        "session" => {
+            let steps = args["steps"].as_array().cloned().unwrap_or_default();
+            match crate::session::replay_behaviour(&steps) {
+                None => {
+                    put!("ok", json!(true));
+                }
+                Some((k, op, detail)) => {
+                    put!("ok", json!(false));
+                    put!("fail_step", json!(k));
+                    put!("fail_op", json!(op));
+                    put!("detail", detail);
                 }
             }
         }
